@@ -144,3 +144,54 @@ def refute(pc: list, goal, timeout_ms: int = 8000, rounds: int = 4) -> tuple[boo
                 extra.append(S.Val.str(w))
                 val_keys.append(S.Val.str(w))
     return False, f"no validated counter-model within {rounds} refinement rounds"
+
+
+def prove_by_instances(pc: list, goal, timeout_ms: int = 6000, per_sort: int = 14) -> tuple[bool, str]:
+    """Brute-force E-matching: instantiate every universally quantified hypothesis at
+    the ground terms occurring in the goal (instances of hypotheses are consequences of
+    them, so unsat of  QF-hyps + instances + not goal  is a proof of the obligation)."""
+    t0 = time.time()
+    neg = z3.Not(goal)
+    # skolemise a universally quantified goal
+    g = goal
+    sk = []
+    while z3.is_quantifier(g) and g.is_forall():
+        vs = [z3.Const(f"sk!{len(sk) + i}", g.var_sort(i)) for i in range(g.num_vars())]
+        sk.extend(vs)
+        g = z3.substitute_vars(g.body(), *reversed(vs))
+    neg = z3.Not(g)
+    terms: dict[int, object] = {}
+    for x in _subterms(g):
+        if z3.is_app(x) and _ground(x) and not z3.is_bool(x) and not z3.is_array(x):
+            terms.setdefault(x.get_id(), x)
+    by_sort: dict[str, list] = {}
+    for x in sorted(terms.values(), key=lambda e: len(e.sexpr())):
+        lst = by_sort.setdefault(str(x.sort()), [])
+        if len(lst) < per_sort:
+            lst.append(x)
+    cand = [x for lst in by_sort.values() for x in lst]
+    sol = z3.Solver()
+    sol.set("timeout", timeout_ms)
+    sol.set("smt.mbqi", False)
+    n = 0
+    for f in pc:
+        if z3.is_quantifier(f) and f.is_forall():
+            insts = _instances(f, cand, limit=300)
+            n += len(insts)
+            for i in insts:
+                if not (z3.is_quantifier(i)):
+                    sol.add(i)
+        elif not _has_forall(f):
+            sol.add(f)
+    sol.add(neg)
+    r = sol.check()
+    if r == z3.unsat:
+        return True, f"proved from {n} ground instances of the quantified hypotheses in {time.time() - t0:.1f}s"
+    return False, f"ground instantiation: {r}"
+
+
+def _has_forall(t) -> bool:
+    for x in _subterms(t):
+        if z3.is_quantifier(x) and not x.is_lambda():
+            return True
+    return False
